@@ -15,7 +15,8 @@ NP == Len(Pool)
 kx == <<120>>
 \* member value for pool key i: distinct numbers, every second one an object with the UTF-16 discriminator pair
 Val(i) == IF i % 2 = 1 THEN Num(1000 * i)
-          ELSE Obj(<<KV(kx, Num(1000 * i)), KV(<<65535>>, Num(1000 * i + 1)), KV(<<65536>>, Num(1000 * i + 2))>>)
+          ELSE Obj(<<KV(<<115>>, Obj(<<KV(kx, Num(7000)), KV(<<121>>, Num(8000))>>)),     \* "s": the SAME sub-object in every such member
+                     KV(kx, Num(1000 * i)), KV(<<65535>>, Num(1000 * i + 1)), KV(<<65536>>, Num(1000 * i + 2))>>)
 
 Paths == << Path("$", <<Wild>>, <<>>),
             Path("$", <<Rec, Wild>>, <<>>),
@@ -27,7 +28,10 @@ Paths == << Path("$", <<Wild>>, <<>>),
             Path("$", <<Flt(Cmp(">", Cur(<<Nm(kx)>>), Lit(Num(0)))), Wild>>, <<>>),
             Path("$", <<Flt(Exist(Root(<<>>)))>>, <<>>),                      \* member-independent: whole match
             Path("$", <<Flt(NotP(Cur(<<Nm(<<113, 113>>)>>)))>>, <<>>),
-            Path("$", <<Flt(Cmp("==", Lit(Num(1000)), Lit(Num(1000)))), Wild>>, <<>>) >>
+            Path("$", <<Flt(Cmp("==", Lit(Num(1000)), Lit(Num(1000)))), Wild>>, <<>>),
+            \* a function inside a filter operand is handed the members of an object in key order
+            Path("$", <<Flt(Exist(Path("@", <<Wild>>, <<AF(Fn_g1)>>)))>>, <<>>),
+            Path("$", <<Wild>>, <<AF(Fn_g1)>>) >>
 
 VARIABLES ks, pi      \* ks: increasing sequence of pool indices; pi: chosen path (0 = none yet)
 vars == <<ks, pi>>
